@@ -9,7 +9,8 @@ func init() {
 		return &runner.Spec{
 			Property: "C16", Engine: "storex", Level: "model_checking",
 			Jobs: func(tier string) []runner.Job {
-				var jobs []runner.Job
+				// the isolation probe first: it must not fall behind the budget of the search jobs
+				jobs := []runner.Job{&IsolationJob{Tier: tier}}
 				depth := 3
 				if tier == "thorough" {
 					depth = 4
@@ -19,7 +20,6 @@ func init() {
 					jobs = append(jobs, &C16Job{Populated: 1, First: i, Depth: depth - 1, Tier: tier, Pairs: tier == "thorough"})
 					jobs = append(jobs, &C16Job{Populated: 2, First: i, Depth: depth - 1, Tier: tier, Pairs: tier == "thorough"})
 				}
-				jobs = append(jobs, &IsolationJob{Tier: tier})
 				return jobs
 			},
 			Rule:   "breadth-first search over sequences of store transactions (all 27 command kinds with arguments from tiny domains plus the multi-command transactions the coroutines issue) executed by the REAL SqliteStore through store.Process, depth 3 (4 thorough) from the empty database and depth 2 (3) from two populated states (two rows per table, completed and pending promises, registrations, tasks in several states, locks), deduplicated by canonical table dump; every transition compares row counts, returned records (column by column) and the resulting five tables with a Go reference model; from the first reached states every ordered pair of mutating transactions as ONE batch must equal the sequence, and an SQL error injected (trigger) before / between / after must undo the batch and fail every submission; a separate job checks through SQLite's update hook that a second connection still reads the pre-batch state at every row change; distinct = distinct reached database states",
